@@ -286,8 +286,15 @@ func GenKPlanC08(r *core.Rng) *KPlan {
 	p := &KPlan{Scenario: 8}
 	genInit(r, p)
 	n := r.Range(1, 10)
+	if r.Chance(1, 20) {
+		n = r.Range(20, 60) // long histories: thresholds, counters, buffers that grow
+	}
+	w := []int{15, 15, 15, 15, 8, 32}
+	if r.Chance(1, 5) {
+		w = []int{5, 35, 20, 20, 10, 10} // rule-heavy: dumps interleaved with changes of the rule list
+	}
 	for i := 0; i < n; i++ {
-		switch r.Weighted(15, 15, 15, 15, 8, 32) {
+		switch r.Weighted(w...) {
 		case 0:
 			p.Ops = append(p.Ops, KOp{K: kGetStatus})
 		case 1:
@@ -340,14 +347,21 @@ func GenKPlanC16(r *core.Rng) *KPlan {
 		p.Status[kern.WFeatureBitmap] = 1 << uint(r.Intn(8))
 	}
 	n := r.Range(1, 10)
+	w := []int{50, 25, 25}
+	noWaitPct := 33
+	if r.Chance(1, 12) {
+		n = r.Range(18, 70) // long histories, mostly unacknowledged setters
+		w = []int{85, 10, 5}
+		noWaitPct = core.Pick(r, 50, 90, 100)
+	}
 	for i := 0; i < n; i++ {
-		switch r.Weighted(50, 25, 25) {
+		switch r.Weighted(w...) {
 		case 0:
 			op := genSetter(r)
 			if op.K == kSetImmutable && r.Chance(1, 2) {
 				op = KOp{K: kSetFailure, A: uint32(r.Intn(3))}
 			}
-			op.NoWait = r.Chance(1, 3)
+			op.NoWait = r.Chance(noWaitPct, 100)
 			p.Ops = append(p.Ops, op)
 		case 1:
 			p.Ops = append(p.Ops, KOp{K: kGetStatus})
@@ -355,7 +369,7 @@ func GenKPlanC16(r *core.Rng) *KPlan {
 			p.Ops = append(p.Ops, KOp{K: kFromWire, A: uint32(core.Pick(r, r.Intn(65), r.Intn(65), 31, 32, 33, 36, 40, 43, 44, 45, 48, 64, 96)), B: r.U32()})
 		}
 	}
-	for i := 0; i < n+4; i++ {
+	for i := 0; i < n+4 && i < 40; i++ {
 		var f kern.ReqFault
 		if r.Chance(1, 3) {
 			f.DataTrunc = 1 + r.Intn(65)
@@ -378,8 +392,17 @@ func GenKPlanC17(r *core.Rng) *KPlan {
 	p := &KPlan{Scenario: 17}
 	genInit(r, p)
 	n := r.Range(1, 10)
+	if r.Chance(1, 15) {
+		n = r.Range(20, 60)
+	}
+	w := []int{45, 20, 10, 10, 5, 3}
+	if r.Chance(1, 4) {
+		w = []int{10, 5, 35, 20, 5, 25} // rule dumps interleaved with changes of the rule list
+	}
 	for i := 0; i < n; i++ {
-		switch r.Weighted(45, 20, 10, 10, 5) {
+		switch r.Weighted(w...) {
+		case 5:
+			p.Ops = append(p.Ops, KOp{K: kDeleteRule, A: uint32(r.Intn(12))})
 		case 0:
 			op := genSetter(r)
 			if op.K == kSetImmutable {
@@ -458,7 +481,10 @@ func GenKPlanC18(r *core.Rng) *KPlan {
 		ln := core.Pick(r, r.Intn(65), r.Intn(65), 0, 15, 16, 17, 20, r.Intn(2000), 8986)
 		mode := core.Pick(r, uint32(0), 0, 0, 1, 1, 2) // 0 kernel, 1 other port id, 2 non-netlink address
 		via := uint32(r.Intn(2))                       // 0 NetlinkClient.Receive with a recording parser, 1 AuditClient.Receive
-		return KOp{K: kRecvRaw, A: uint32(ln), B: mode, C: via | r.U32()<<8}
+		// port id of a foreign sender: anything but 0, including the range >= 2^31
+		// that the kernel assigns to a process's second and later sockets
+		pid := core.Pick(r, uint32(1), 2, 4711, 1<<31-1, 1<<31, 1<<31+1, 1<<32-1, r.U32()|1, r.U32()|1<<31)
+		return KOp{K: kRecvRaw, A: uint32(ln), B: mode, C: via | r.U32()<<8, D: int64(pid)}
 	}
 	n := r.Range(0, 8)
 	for i := 0; i < n; i++ {
